@@ -299,6 +299,27 @@ class Escapes:
         out.extend(self._typed_sites(fi))
         return out
 
+    def _index_modulo_length(self, fi: FunctionInfo, sub: ast.Subscript) -> bool:
+        """The index is `<ctx>.cycle(<key>, len(<the same sequence>))` - written in place or through a local bound once - and every
+        definition of `cycle` in liquid2 returns `<something> % <its second parameter>`: an index in range for a non-empty sequence."""
+        idx: ast.AST | None = sub.slice
+        if isinstance(idx, ast.Name):
+            defs = [a.value for a in ast.walk(fi.node) if isinstance(a, ast.Assign) and any(isinstance(t, ast.Name) and t.id == idx.id for t in a.targets)]  # type: ignore[union-attr]
+            idx = defs[0] if len(defs) == 1 else None
+        if not (isinstance(idx, ast.Call) and isinstance(idx.func, ast.Attribute) and idx.func.attr == "cycle" and len(idx.args) == 2):
+            return False
+        if ast.unparse(idx.args[1]) != f"len({ast.unparse(sub.value)})":
+            return False
+        impls = [g for g in self.by_name.get("cycle", []) if g.cls is not None]
+        if not impls:
+            return False
+        for g in impls:
+            params = [a.arg for a in g.node.args.args]
+            rets = [r.value for r in ast.walk(g.node) if isinstance(r, ast.Return) and r.value is not None]
+            if len(params) < 3 or not rets or not all(isinstance(r, ast.BinOp) and isinstance(r.op, ast.Mod) and isinstance(r.right, ast.Name) and r.right.id == params[2] for r in rets):
+                return False
+        return True
+
     def _is_text_file(self, fi: FunctionInfo, name: str) -> bool:
         """*name* is bound by `with <x>.open(...)/open(...) as name` without a binary mode."""
         for w in ast.walk(fi.node):
@@ -474,7 +495,7 @@ class Escapes:
             elif isinstance(n, ast.Subscript) and isinstance(n.ctx, ast.Load) and not isinstance(n.slice, (ast.Slice, ast.Constant)) and not (isinstance(n.slice, ast.UnaryOp) and isinstance(n.slice.operand, ast.Constant)) and not (isinstance(n.value, ast.Attribute) and n.value.attr == "source"):
                 # computed-index read of a value declared str / list / tuple / Sequence: IndexError unless a length test guards it
                 vt = T.of(fi, n.value)
-                if vt is not None and (vt in ("str", "list", "tuple", "bytes") or vt.startswith(("list[", "tuple[", "Sequence", "List[", "Tuple["))) and not self._length_guarded(fi, n):
+                if vt is not None and (vt in ("str", "list", "tuple", "bytes") or vt.startswith(("list[", "tuple[", "Sequence", "List[", "Tuple["))) and not self._length_guarded(fi, n) and not self._index_modulo_length(fi, n):
                     out.append((n, IndexError, f"{ast.unparse(n)[:40]} (computed index)"))
             elif isinstance(n, ast.Compare) and len(n.ops) == 1 and isinstance(n.ops[0], (ast.In, ast.NotIn)):
                 needle, hay = n.left, n.comparators[0]
